@@ -108,6 +108,9 @@ type rdBadRet3 struct {
 	}
 	Z fE
 }
+type rdBadRetErrFirst struct { // an error among the results, but not as the last one
+	F func(ctx context.Context) (error, string)
+}
 type rdBadRetNoErr struct {
 	A func(ctx context.Context) (int, int)
 }
@@ -650,7 +653,7 @@ func RunRemotes() []RemoteCase {
 	}
 	out := []RemoteCase{
 		runRemote[rdValid1]("valid1"), runRemote[rdValid2]("valid2"), runRemote[rdEmpty]("empty"), runRemote[rdNoFuncs]("nofuncs"),
-		runRemote[rdBadRet0]("badret0"), runRemote[rdBadRet3]("badret3"), runRemote[rdBadRetNoErr]("badret-noerr"),
+		runRemote[rdBadRet0]("badret0"), runRemote[rdBadRet3]("badret3"), runRemote[rdBadRetNoErr]("badret-noerr"), runRemote[rdBadRetErrFirst]("badret-errfirst"),
 		runRemote[rdBadRetNoErr1]("badret-noerr1"), runRemote[rdBadArgs0]("badargs0"), runRemote[rdBadArgsNoCtx]("badargs-noctx"),
 		runRemote[rdTwoBad]("twobad"), runRemote[rdTwoBad2]("twobad2"), runRemote[rdBothBad]("bothbad"), runRemote[rdChan]("chan-map-ptr"),
 		runRemote[sysRemote]("sysremote"), runRemote[epRemote]("epremote"),
